@@ -1224,6 +1224,63 @@ def c16(tier, seed):
 # ---------------------------------------------------------------------------------------------
 # C17 serde
 # ---------------------------------------------------------------------------------------------
+BORROWED_DE = r"""
+// elements that BORROW from the input (zero-copy): deserialising `[T; N]`-like data must work for them as it does
+// for owned elements - T: Deserialize<'de>, not DeserializeOwned
+use generic_array::typenum::{U0, U2, U3};
+use generic_array::GenericArray;
+fn main() {
+    let text = String::from("[\"ab\",\"cd\",\"ef\"]");
+    let a: GenericArray<&str, U3> = serde_json::from_str(&text).unwrap();
+    let lo = text.as_ptr() as usize;
+    let zero_copy = a.iter().all(|s| { let p = s.as_ptr() as usize; p >= lo && p + s.len() <= lo + text.len() });
+    let wrong: Result<GenericArray<&str, U2>, _> = serde_json::from_str(&text);
+    let empty: GenericArray<&str, U0> = serde_json::from_str("[]").unwrap();
+    let bytes = bincode::serialize(&(&b"xy"[..], &b"z"[..])).unwrap();
+    let b: GenericArray<&[u8], U2> = bincode::deserialize(&bytes).unwrap();
+    println!("{{\"ev\":\"de_borrowed\",\"items\":{:?},\"zero_copy\":{},\"wrong_len_rejected\":{},\"empty_len\":{},\"bin\":{:?}}}",
+             a.as_slice(), zero_copy, wrong.is_err(), empty.len(), [b[0].len(), b[1].len()]);
+}
+"""
+
+
+def borrowed_elements_program(c, binary):
+    """A program deserialising arrays whose elements borrow from the input, compiled against the crate as the harness
+    build produced it (serde feature on) and run; the compiler accepting it is part of the verdict."""
+    import glob
+    deps = os.path.join(os.path.dirname(binary), "deps")
+
+    def lib(name):
+        cands = sorted(glob.glob(os.path.join(deps, "lib%s-*.rlib" % name)), key=os.path.getmtime)
+        if not cands:
+            raise vlib.ToolError("no %s rlib under %s" % (name, deps))
+        return cands[-1]
+    pdir = os.path.join(c.dir, "borrowed")
+    os.makedirs(pdir, exist_ok=True)
+    src = os.path.join(pdir, "borrowed.rs")
+    open(src, "w").write(BORROWED_DE)
+    cmd = ["rustc", "--edition", "2021", "--crate-type", "bin", "-C", "debuginfo=0", "--cap-lints", "allow", "--out-dir", pdir, "-L", "dependency=" + deps]
+    for n in ("generic_array", "serde_json", "bincode"):
+        cmd += ["--extern", "%s=%s" % (n, lib(n))]
+    p = vlib.sh(cmd + [src], timeout=600)
+    scn = {"case": "de-borrowed", "d": {"op": "deserialize", "elements": "&str / &[u8] borrowed from the input"}, "program": BORROWED_DE}
+    c._sub, c._spec = "rustc", "-"
+    if p.returncode != 0:
+        # (the program is fixed and compiles against the pinned crate: only a missing / unloadable crate is the machinery's fault;
+        #  "implementation of `Deserialize` is not general enough" carries no error code)
+        if any(code in p.stderr for code in ("E0463", "E0460", "E0461", "E0462", "E0514")) or "error" not in p.stderr:
+            raise vlib.ToolError("borrowed-elements program: the compiler could not load the crates:\n" + p.stderr[-2000:])
+        c.report(scn, {"line": 0, "event": "rustc", "reason": "a program deserialising arrays of borrowed elements was rejected by the compiler: " + p.stderr[-1500:], "trace": []})
+        return
+    q = vlib.sh([os.path.join(pdir, "borrowed")], timeout=120)
+    want = '{"ev":"de_borrowed","items":["ab", "cd", "ef"],"zero_copy":true,"wrong_len_rejected":true,"empty_len":0,"bin":[2, 1]}'
+    got = q.stdout.strip()
+    c.cov["evaluations"] = c.cov.get("evaluations", 0) + 1
+    if q.returncode != 0 or got != want:
+        c.report(scn, {"line": 0, "event": got[:300], "reason": "borrowed elements: expected %s (exit 0), got exit %s" % (want, q.returncode), "trace": [q.stderr[-500:]]})
+    os.remove(os.path.join(pdir, "borrowed"))
+
+
 @check("C17")
 def c17(tier, seed):
     c = Check("C17", tier, seed)
@@ -1271,6 +1328,7 @@ def c17(tier, seed):
     c.cov["exhaustive"] = True
     c.cov["bounds"] = {"model": "N in 0..%d, every 0/1 script of length <= N+2, an element error at every index, 14 hint modes" % (2 if tier == "quick" else 4), "real formats": "serde_json, serde_json::Value, bincode; N in %s" % lens}
     c.conform(binary, with_etys(scns, ["tk", "zst", "plain", "plz"]), "serde")
+    borrowed_elements_program(c, binary)
     c.assumptions.append("outside the claim (and accepted either way): a SeqAccess that reports 0 elements left while still holding elements")
     return c.finish()
 
